@@ -225,7 +225,8 @@ func (c *Ctx) c17Map() {
 			he := c.newHookEval(fn, emit)
 			cons := "hook-mapping@" + shortFn(fn)
 			var probs []string
-			usesHook := func(in ssa.Instruction) bool {
+			// sendWith: in is a reply whose text is built from ErrorCode and ErrorMsg of a value in res
+			sendWith := func(in ssa.Instruction, res func(ssa.Value) bool) bool {
 				if !m.isSend(in) {
 					return false
 				}
@@ -237,7 +238,7 @@ func (c *Ctx) c17Map() {
 						continue
 					}
 					fa, ok := u.X.(*ssa.FieldAddr)
-					if !ok || !he.res[fa.X] {
+					if !ok || !res(fa.X) {
 						continue
 					}
 					f := eng.FieldOfAddr(fa)
@@ -249,6 +250,34 @@ func (c *Ctx) c17Map() {
 					}
 				}
 				return hasCode && hasMsg
+			}
+			usesHook := func(in ssa.Instruction) bool {
+				if sendWith(in, func(v ssa.Value) bool { return he.res[v] }) {
+					return true
+				}
+				// a helper of the package that receives the hook result and, on every path
+				// through it, sends the reply built from that parameter
+				call, ok := in.(*ssa.Call)
+				if !ok {
+					return false
+				}
+				g := eng.StaticCallee(call.Common())
+				if g == nil || g == m.send || len(g.Blocks) == 0 || eng.FuncPkgPath(g) != eng.Mod+"/"+smtpRel {
+					return false
+				}
+				for i, a := range call.Call.Args {
+					if !he.res[a] || i >= len(g.Params) {
+						continue
+					}
+					prm := g.Params[i]
+					relay := func(x ssa.Instruction) bool {
+						return sendWith(x, func(v ssa.Value) bool { return v == ssa.Value(prm) })
+					}
+					if (&eng.Search{Target: eng.IsReturnOf(g), Avoid: relay}).FromEntry(g) == nil {
+						return true
+					}
+				}
+				return false
 			}
 			// Deny: refused with the hook's code and text, nothing accepted or changed
 			fd := he.feasible(hcDeny)
